@@ -8,6 +8,7 @@ package main
 import (
 	"encoding/json"
 	"fmt"
+	"regexp"
 	"sort"
 	"strings"
 
@@ -272,7 +273,18 @@ func checkCase(raw json.RawMessage, c *rcase, conc *vlib.Conc) {
 				if strings.Join(got, "\n") != strings.Join(want, "\n") {
 					fail("callgrind", "nodes", fmt.Sprintf("got:\n%s\nwant:\n%s", strings.Join(got, "\n"), strings.Join(want, "\n")))
 				}
-				if strings.Join(gotE, "\n") != strings.Join(wantE, "\n") {
+				// functions of the same name and file that the graph keeps apart (another binary, another call-tree
+				// context) are called "name [i/n]" in the cfn= lines of their callers while their own fn= lines say
+				// "name": the weights are right but they hang on a callee no fn= line defines (recorded finding)
+				stripped := make([]string, len(gotE))
+				suffix := regexp.MustCompile(` \[\d+/\d+\]@`)
+				for i, e := range gotE {
+					stripped[i] = suffix.ReplaceAllString(e, "@")
+				}
+				sort.Strings(stripped)
+				if strings.Join(gotE, "\n") != strings.Join(wantE, "\n") && strings.Join(stripped, "\n") == strings.Join(wantE, "\n") && strings.Join(got, "\n") == strings.Join(want, "\n") {
+					fail("callgrind", "callee-not-defined", fmt.Sprintf("calls name callees that no fn= line defines:\n%s\nthe functions are defined as:\n%s", strings.Join(gotE, "\n"), strings.Join(got, "\n")))
+				} else if strings.Join(gotE, "\n") != strings.Join(wantE, "\n") {
 					fail("callgrind", "edges", fmt.Sprintf("got:\n%s\nwant:\n%s", strings.Join(gotE, "\n"), strings.Join(wantE, "\n")))
 				}
 			}
